@@ -362,7 +362,7 @@ func (d *discharger) guardedByPredicate(fn *ssa.Function, b *ssa.BasicBlock, pre
 		if !ok || call.Call.StaticCallee() != pred {
 			continue
 		}
-		if !c.sameValue(call.Call.Args[0], link) || !c.sameValue(call.Call.Args[1], pad) {
+		if !c.sameValue(unbox(call.Call.Args[0]), unbox(link)) || !c.sameValue(call.Call.Args[1], pad) {
 			continue
 		}
 		bv, ev := extractOf(call, 0), extractOf(call, 1)
@@ -1057,6 +1057,11 @@ func (d *discharger) bitIndexFromNextD(fn *ssa.Function, at *ssa.Call, shard, id
 	}
 	if c.accessPath(w.Call.Args[0], 0) != c.accessPath(shard, 0)+".data" {
 		return false, "bit width is computed from a different shard's data"
+	}
+	// the fanout the width is taken from is a positive power of two: the validator hands it to a check that rejects
+	// v <= 0 (fanout 0 would give a 64-bit width and an empty bitfield)
+	if ok, why := d.fanoutCheckedPositive(); !ok {
+		return false, why
 	}
 	// constructor pairing: every allocation of the shard struct stores data=D and bitfield=bitField(D)
 	if ok, why := d.ctorPairsBitfield(); !ok {
@@ -2014,4 +2019,121 @@ func closureFactoryParam(cl *ssa.Function, v ssa.Value) (*ssa.Function, int) {
 		}
 	}
 	return nil, -1
+}
+
+// unbox strips interface conversions: a value handed to a parameter of (narrower) interface type is still that value.
+func unbox(v ssa.Value) ssa.Value {
+	for i := 0; i < 4; i++ {
+		switch x := v.(type) {
+		case *ssa.MakeInterface:
+			v = x.X
+		case *ssa.ChangeInterface:
+			v = x.X
+		default:
+			return v
+		}
+	}
+	return v
+}
+
+// fanoutCheckedPositive: some function of package hamt that is handed the Fanout value (from the data validator) returns an
+// error for every v <= 0 and for every v that is not a power of two.
+func (d *discharger) fanoutCheckedPositive() (bool, string) {
+	c := d.c
+	found := false
+	for _, fn := range c.G.Funcs() {
+		rel, ok := c.P.PkgOf(fn)
+		if !ok || rel != "hamt" || fn.Synthetic != "" {
+			continue
+		}
+		for _, ci := range core.CallsIn(fn) {
+			call, ok := ci.(*ssa.Call)
+			if !ok {
+				continue
+			}
+			h := call.Call.StaticCallee()
+			if h == nil || len(h.Blocks) == 0 || len(h.Params) != 1 || !isIntegerType(h.Params[0].Type()) || core.ErrResultIndex(h.Signature) < 0 {
+				continue
+			}
+			if hrel, isRepo := c.P.PkgOf(h); !isRepo || hrel != "hamt" {
+				continue
+			}
+			if !strings.Contains(c.accessPath(core.Unconv(call.Call.Args[0]), 0), "Fanout") {
+				continue
+			}
+			found = true
+			v := ssa.Value(h.Params[0])
+			// every return that may carry a nil error is dominated by v > 0
+			for _, ret := range core.Returns(h) {
+				ev := core.ResolvedResults(ret)[core.ErrResultIndex(h.Signature)]
+				if core.ErrKnownNonNil(ev, nil) {
+					continue
+				}
+				posCmp := func(cond ssa.Value, v ssa.Value) (bool, bool) {
+					bo, ok := cond.(*ssa.BinOp)
+					if !ok || core.Unconv(bo.X) != v {
+						return false, false
+					}
+					k, isK := core.ConstInt(bo.Y)
+					if !isK {
+						return false, false
+					}
+					switch {
+					case bo.Op == token.LEQ && k == 0, bo.Op == token.LSS && k == 1:
+						return false, true
+					case bo.Op == token.GTR && k == 0, bo.Op == token.GEQ && k == 1:
+						return true, true
+					}
+					return false, false
+				}
+				pos := core.GuardedBy(ret.Block(), func(cond ssa.Value) (bool, bool) {
+					// a boolean predicate helper P(v) whose every possibly-true return is itself dominated by v > 0
+					neg := false
+					pc := cond
+					if u, isNot := pc.(*ssa.UnOp); isNot && u.Op == token.NOT {
+						pc, neg = u.X, true
+					}
+					if pcall, isCall := pc.(*ssa.Call); isCall {
+						if ph := pcall.Call.StaticCallee(); ph != nil && len(ph.Blocks) > 0 && len(ph.Params) == 1 && len(pcall.Call.Args) == 1 && core.Unconv(pcall.Call.Args[0]) == v && ph.Signature.Results().Len() == 1 && isBasic(ph.Signature.Results().At(0).Type(), types.Bool) {
+							implies := true
+							for _, pr := range core.Returns(ph) {
+								if cst, isC := pr.Results[0].(*ssa.Const); isC && cst.Value != nil && cst.Value.Kind() == constant.Bool && !constant.BoolVal(cst.Value) {
+									continue
+								}
+								pv := ssa.Value(ph.Params[0])
+								if !core.GuardedBy(pr.Block(), func(c2 ssa.Value) (bool, bool) { return posCmp(c2, pv) }) {
+									implies = false
+								}
+							}
+							if implies {
+								return !neg, true
+							}
+						}
+					}
+					bo, ok := cond.(*ssa.BinOp)
+					if !ok || core.Unconv(bo.X) != v {
+						return false, false
+					}
+					k, isK := core.ConstInt(bo.Y)
+					if !isK {
+						return false, false
+					}
+					switch {
+					case bo.Op == token.LEQ && k == 0, bo.Op == token.LSS && k == 1:
+						return false, true // must be on the false edge
+					case bo.Op == token.GTR && k == 0, bo.Op == token.GEQ && k == 1:
+						return true, true
+					}
+					return false, false
+				})
+				if !pos {
+					return false, fmt.Sprintf("%s can accept a fanout that is not positive (return at %s is not dominated by v > 0): fanout 0 yields a 64-bit index into an empty bitfield", core.FuncName(h), c.P.Pos(ret.Pos()))
+				}
+			}
+		}
+	}
+	if !found {
+		return false, "no check of the Fanout value (positive power of two) found in package hamt"
+	}
+	return true, ""
 }
